@@ -8,6 +8,7 @@ import (
 	"os"
 
 	"verif/harness/c17"
+	"verif/harness/c20"
 )
 
 func main() {
@@ -20,12 +21,19 @@ func main() {
 	out := fs.String("out", "", "trace output")
 	in := fs.String("in", "", "scenario input (from TLC)")
 	mode := fs.String("mode", "", "driver mode")
+	stride := fs.Int("stride", 1, "sweep stride")
 	fs.Parse(os.Args[2:])
 	_ = in
 	_ = mode
 	switch prop {
 	case "c17":
 		c17.Run(*out)
+	case "c20":
+		if *mode == "sweep" {
+			c20.Sweep(*in, *out, uint64(*stride))
+		} else {
+			c20.Run(*out)
+		}
 	default:
 		fmt.Fprintln(os.Stderr, "unknown property", prop)
 		os.Exit(2)
